@@ -28,7 +28,7 @@ def conditions(tier):
     import pipe
     import h_c07 as H
     quick = tier == 'quick'
-    T = 220 if quick else 1500
+    T = 300 if quick else 1500
     NT = pipe.N_TYPES
     NU = len(pipe.USER_TYPES)
     names = pipe.CALLABLE_KINDS
